@@ -54,8 +54,14 @@ def gen_graph_case(rng, max_n=7):
             # a tag that CONTAINS another tag / a node id as a substring names only its own node
             tags[str(i)] = rng.choice(["xt0", "t1x", "at2b", "n%dx" % rng.randrange(n), "an%d" % rng.randrange(n)])
     consts = {str(i): rng.random() < 0.3 for i in range(n)}  # node takes an extra constant argument
+    # a call site may re-tag its node (twz_tag): the call site's tag REPLACES the decorator's
+    crng = random.Random(rng.getrandbits(30))
+    call_tags = {}
+    for i in range(n):
+        if crng.random() < 0.12:
+            call_tags[str(i)] = crng.choice(["t0", "t1", "c0"])
     case = dict(kind="graph", n=n, edges=[list(e) for e in edges], prios=prios, debug=sorted(debug), setup=sorted(setup),
-                tags=tags, consts=consts, queries=[])
+                tags=tags, consts=consts, call_tags=call_tags, queries=[])
     return case
 
 
@@ -148,6 +154,8 @@ def build_dag(case, maxc=1, is_async=False, mk=None, attrs=None):
             kw = {}
             if case["consts"].get(str(i)):
                 args.append(7)
+            if case.get("call_tags", {}).get(str(i)):
+                kw["twz_tag"] = case["call_tags"][str(i)]
             if viol is not None and viol["dst"] == i:
                 src = params[0] if viol["how"] == "param" else v[viol["src"]]
                 if viol["via"] == "arg":
@@ -201,6 +209,16 @@ def to_alias(a, fs, d):
         # the ExecNode object of the DAG (the decorated function itself has the id of the first call site too)
         return d.exec_nodes["n%d" % a[1]]
     return a[1]
+
+
+def declared_tags(case):
+    """node name -> list of tags the user declared: the call site's twz_tag if given, else the decorator's tag(s)"""
+    out = {}
+    for i in range(case["n"]):
+        t = case.get("call_tags", {}).get(str(i)) or case["tags"].get(str(i))
+        if t:
+            out["n%d" % i] = [t] if isinstance(t, str) else list(t)
+    return out
 
 
 def impl_tables(d):
